@@ -107,6 +107,9 @@ def _case(draw, tier):
     spec, combo = draw(solve.spec_and_combo())
     tset = draw(solve.time_setup(max_steps=12 if tier == "quick" else 32))
     exact = draw(st.booleans())
+    if not exact:
+        # the prior drift may return its input tensor itself (h(t, y) = y)
+        spec["h_alias"] = draw(st.sampled_from([None, None, True]))
     if exact and draw(st.sampled_from([False, False, True])):
         # a diffusion of small magnitude: with f - h = g c the integrand is 1/2 |c|^2 whatever the scale of g
         spec["gscale"] = draw(st.sampled_from([1e-2, 1e-4, 1e-5]))
